@@ -863,7 +863,18 @@ impl<'a, F: EvalComptimeFn> InferenceCtx<'a, F> {
                         [self.world_bodies.global_body(entry_point)]
                     {
                         hir::Expr::Lambda(lambda) => &self.world_bodies[entry_point.file][lambda],
-                        _ => todo!("entry point doesn't have lambda body"),
+                        _ => {
+                            // it has a function type but it isn't written as a function
+                            // (`main :: other_function;`)
+                            self.diagnostics.push(TyDiagnostic {
+                                kind: TyDiagnosticKind::EntryNotFunction,
+                                file: entry_point.file,
+                                expr: None,
+                                range: range.whole,
+                                help: None,
+                            });
+                            break 'entry;
+                        }
                     };
 
                     if !param_tys.is_empty() {
